@@ -25,7 +25,8 @@ THEOREMS = [f'Gnpy.Spectrum.{t}' for t in (
     'path_power_split', 'addAse_powers', 'addNli_powers', 'addNli_transfer', 'attLin_powers', 'gainLin_powers',
     'attDb_dbm', 'gainDb_dbm', 'gsnr_harmonic', 'nsr_split', 'nsr_eq_inv_gsnr', 'gsnr_no_ase', 'gsnr_no_nli',
     'gsnr_harmonic_db', 'snrSum_lin', 'updateSnr_harmonic', 'demux_mem', 'demux_sublist', 'mux_spec', 'mux_sorted',
-    'split_merge_perm', 'split_merge_power', 'mux_power', 'demux_mux_inv', 'multiband_mem', 'multiband_inv')]
+    'split_merge_perm', 'split_merge_power', 'mux_power', 'demux_mux_inv', 'multiband_mem', 'multiband_inv',
+    'snrAdded_lin', 'updateSnr_lin', 'updateSnr_le', 'applyElems_inv')]
 RULE = ('cases from one PRNG: (a) "ops": a SpectralInformation built by the real constructor (1-40 channels, quick; up to '
         '200 thorough; mixed baud/slot, -30..+10 dBm, arbitrary initial shares) taken through a random sequence of '
         'stages, a stage being either 1-6 mutating calls (attenuation/gain lin or dB, add_ase, add_nli; scalar or '
@@ -394,7 +395,7 @@ _setup_path = S.setup_path
 def run_path(case, drv):
     from gnpy.topology.request import propagate, filter_si
     from gnpy.core.info import carriers_to_spectral_information, create_input_spectral_information
-    from gnpy.core.elements import Roadm, Fiber
+    from gnpy.core.elements import Roadm, Fused
     res = Result()
     eq, path, req, sim = _setup_path(case)
     shuffle = case['kind'] == 'shuffle'
@@ -416,9 +417,10 @@ def run_path(case, drv):
                     el = path[i]
                     if isinstance(el, Roadm):
                         si = el(si, degree=path[i + 1].uid, from_degree=path[i - 1].uid)
-                    elif isinstance(el, Fiber) and float(np.max(si.pch)) > 10e-3:
+                    elif not isinstance(el, Fused) and float(np.max(si.pch)) > 10e-3:
                         # a random order can pile amplifiers up: beyond +10 dBm per channel the property does not apply
-                        res.stats['shuffle_fibre_skipped_above_10dBm'] += 1
+                        # (the NLI estimate exceeds the channel power, amplifier models leave their domain)
+                        res.stats['shuffle_element_skipped_above_10dBm'] += 1
                     else:
                         si = el(si)
                 si = path[-1](si)
